@@ -84,7 +84,7 @@ func TestC20(t *testing.T) {
 			}
 			st := f.St.Clone()
 			st.Logging = true
-			ls := st.LinkSystem(true)
+			ls := st.LinkSystemCfg(true, len(f.Content)%2 == 1, false)
 			raw, err := loadRaw(ls, f.Root)
 			if err != nil {
 				c.Harness("load: %v", err)
@@ -203,7 +203,8 @@ func TestC20(t *testing.T) {
 				c.Count("dags_ge3_levels", 1)
 			}
 			st.Logging = true
-			ls := st.LinkSystem(true)
+			// every other directory goes through a link system whose reifier table held another ADL first
+			ls := st.LinkSystemCfg(true, len(names)%2 == 1, false)
 			raw, err := loadRaw(ls, root)
 			if err != nil {
 				c.Harness("load: %v", err)
@@ -269,6 +270,63 @@ func TestC20(t *testing.T) {
 					c.Count("repeats", 1)
 				}
 				c.Sig(fmt.Sprintf("dir|f%d|d%d|%s", d.Fanout, depth+1, op.name), len(want) >= 2)
+			}
+			// the same on ONE node whose first attempt was cut short by a load that failed once: the
+			// attempt and its repetition together still request every shard, first requests in walk order
+			if len(want) >= 2 {
+				for _, opn := range []string{"Length", "MapIterator"} {
+					for _, k := range []int{1, 1 + len(want)/2, len(want)} {
+						st.ClearFaults()
+						st.ResetLog()
+						n, err := reify(ls, raw)
+						if err != nil {
+							break
+						}
+						run := func() (int64, error) {
+							if opn == "Length" {
+								if hl, ok := n.(interface{ Length() int64 }); ok {
+									return hl.Length(), nil
+								}
+							}
+							it := n.MapIterator()
+							cnt := int64(0)
+							var ferr error
+							for !it.Done() {
+								if _, _, err := it.Next(); err != nil {
+									ferr = err
+									continue
+								}
+								cnt++
+							}
+							return cnt, ferr
+						}
+						st.FailReadAt = k
+						st.FailErr = store.ErrInjected
+						c.Guard(opn+" interrupted", func() { run() })
+						hit := st.InjectedHits > 0
+						st.ClearFaults()
+						var got2 int64
+						var err2 error
+						if !c.Guard(opn+" repeated", func() { got2, err2 = run() }) {
+							continue
+						}
+						c.Count("interrupted_then_repeated", 1)
+						if err2 != nil || got2 != int64(len(names)) {
+							c.Violation("C20|resumed-result|"+opn, "%s on a fanout-%d directory, repeated on the same node after load #%d of the first attempt had failed once, gives (%d, %v), want %d entries", opn, d.Fanout, k, got2, err2, len(names))
+							continue
+						}
+						if hit && opn == "MapIterator" {
+							// iteration carries on past a shard it cannot load, so only the set is fixed
+							got := firstOccurrences(st.ReadCids())
+							if len(got) != len(want) {
+								c.Violation("C20|dir-order|MapIterator-resumed", "iteration interrupted at load #%d and repeated on the same node requested %d distinct shards, the directory has %d", k, len(got), len(want))
+							}
+						} else if hit {
+							compareOrder(c, "C20|dir-order|"+opn+"-resumed", fmt.Sprintf("%s interrupted at load #%d and repeated on the same node (fanout %d, %d shards)", opn, k, d.Fanout, len(shards)), firstOccurrences(st.ReadCids()), want)
+						}
+					}
+				}
+				st.ClearFaults()
 			}
 		})
 	}
